@@ -5,6 +5,8 @@ LEVEL = "proof"
 
 
 def run(ctx):
+    # leaf translator: theorems re-checked against the Gallina translation of the current Go source
+    generic.leaf_obligations(ctx, ['Step'])
     generic.standard(ctx, "Props_C04", "c04", "findall", lists=("M", "MM", "MH"), ledger="known/C04.ledger")
     ctx.coverage["explanation"] = (
         "Coq (FindAll.v): regexp's allMatches (std_all) and every coregex enumeration loop (findAllIndicesLoop incl. the anchored "
